@@ -257,7 +257,11 @@ pub fn gen_entry(r: &mut Rng, kind: &str, ctx: &mut Ctx, big: bool) -> Option<St
             tok(kind, &[r.below(16)], &[], &[], &o)
         }
         "ges" => tok(kind, &[*r.pick(&[0, 1, 2, 3, u32::MAX as u64]), *r.pick(&[0, 1, 2, 7]), r.below(4)], &[], &[], &[]),
-        "ged" => tok(kind, &[sc(r, 16), r.below(4), sc(r, 16), sc(r, 8), sc(r, 8), sc(r, 32)], &[r.bytes(16), r.bytes(20), r.bytes(8)], &[], &[]),
+        "ged" => {
+            let mut bl = vec![r.bytes(16), r.bytes(20), r.bytes(8)];
+            for _ in 0..*r.pick(&[0u64, 0, 1, 2]) { let k = r.range(1, 40) as usize; bl.push(r.bytes(k)); }   // add_data payloads
+            tok(kind, &[sc(r, 16), r.below(4), sc(r, 16), sc(r, 8), sc(r, 8), sc(r, 32)], &bl, &[], &[])
+        }
         "ecam" => tok(kind, &[sc(r, 64), sc(r, 16), sc(r, 8), sc(r, 8)], &[], &[], &[]),
         "xsdtentry" => tok(kind, &[sc(r, 64)], &[], &[], &[]),
         "qosctrl" => {
